@@ -113,7 +113,7 @@ def code_data_from_json(value: object) -> CodeData:
         tp = copy(value["type"])
         if "args" in tp:
             tp["args"] = Args(**lists_values_to_tuples(tp["args"]))
-        value["type"] = Function(**tp)
+        value["type"] = Function(**lists_values_to_tuples(tp))
     if "flags" in value:
         value["flags"] = frozenset(value["flags"])
     if "_additional_args" in value:
@@ -129,9 +129,25 @@ def code_data_from_json(value: object) -> CodeData:
 
 def lists_values_to_tuples(d):
     """
-    Converts all list values to tuples
+    Converts all list values to tuples, and decodes the strings which were not valid
+    unicode
     """
-    return {k: tuple(v) if isinstance(v, list) else v for k, v in d.items()}
+    return {
+        k: tuple(map(string_from_json, v))
+        if isinstance(v, list)
+        else string_from_json(v)
+        for k, v in d.items()
+    }
+
+
+def string_from_json(value: object) -> object:
+    """
+    A string which cannot be encoded as unicode is stored as {"string": ...},
+    wherever it occurs, not only in constants.
+    """
+    if isinstance(value, dict) and value.keys() == {"string"}:
+        return literal_eval(value["string"])
+    return value
 
 
 def instruction_from_json(value: object) -> Instruction:
@@ -157,9 +173,9 @@ def arg_from_json(value: object) -> Arg:
     if "target" in value:
         return Jump(**value)
     if "name" in value:
-        return Name(**value)
+        return Name(**lists_values_to_tuples(value))
     if "varname" in value:
-        return Varname(**value)
+        return Varname(**lists_values_to_tuples(value))
     if "constant" in value:
         value = copy(value)
         if isinstance(value["constant"], dict) and "filename" in value["constant"]:
@@ -168,9 +184,9 @@ def arg_from_json(value: object) -> Arg:
             value["constant"] = constant_value_from_json(value["constant"])
         return Constant(**value)
     if "freevar" in value:
-        return Freevar(**value)
+        return Freevar(**lists_values_to_tuples(value))
     if "cellvar" in value:
-        return Cellvar(**value)
+        return Cellvar(**lists_values_to_tuples(value))
     if "_arg" in value:
         return NoArg(**value)
     raise ValueError(f"Unsupported arg type: {type(value)}")
